@@ -42,6 +42,10 @@ type Check struct {
 	// HangLimit is the time one risky case may take inside a worker before the worker stops and the
 	// parent re-runs the case alone under SingleLimit to confirm the hang (defaults 20 s / 60 s).
 	HangLimit, SingleLimit time.Duration
+	// SingleTicks: the check's Single runs a many-step case that calls Ctx.Tick (a search below one
+	// root): the confirmation run is then timed step by step by its own watchdog (HangLimit per step),
+	// not as a whole, so a large but healthy case is never taken for a hang on a loaded machine.
+	SingleTicks bool
 	// MemLimitKB, when > 0, caps each worker's address space (ulimit -v).
 	MemLimitKB int
 	// MaxBadCases is the number of confirmed crashing/hanging cases after which a shard is abandoned
@@ -188,6 +192,17 @@ func Main() {
 			if ch.Single == nil {
 				os.Exit(2)
 			}
+			if ch.SingleTicks {
+				hl := ch.HangLimit
+				if hl == 0 {
+					hl = 20 * time.Second
+				}
+				if *tier == "thorough" {
+					hl *= 4
+				}
+				c.singleMode = true
+				go c.watchdog(hl)
+			}
 			fmt.Println(ch.Single(c, *single))
 			os.Exit(0)
 		}
@@ -294,6 +309,9 @@ func runShard(ch *Check, exe, tier string, i, n int, tmp string, deadline time.T
 		}
 		if tier == "thorough" {
 			sl *= 4
+		}
+		if ch.SingleTicks {
+			sl = 45 * time.Minute // the confirmation run times itself step by step
 		}
 		sout, serr := runLimited(ch, exe, []string{ch.ID, "--tier", tier, "--args", argsJSON, "--single", desc}, seed, sl)
 		if serr == nil {
